@@ -40,6 +40,13 @@ section "Round 3d: C19".
  L4 `f(<T>)` where `f` is a function of the same spec group translated BEFORE this one and given extra parameters by
     L1, `<T>` a declared text parameter of this function             -> `f(<T>, P...)`, and this function gets the same
     extra parameters (they stand for the same thing: the regex applied to the same text).
+
+Further rule families (specified in notes/SRCTIE.md): B1-B8 (section 6.5: a binary file object as (content, position), bytes
+as lists - `reverse_iter_lines`, binary mode), T1-T3 (section 6.6, round 3f: a parameter declared to be the codec name
+'utf-8' - `reverse_iter_lines`, text mode: truth tests fold to the true branch, `X.decode(P)` -> `PyRtC19.decodeUtf8?`),
+J1-J9 (section 6.7, round 3f: `JSONLIterator.next` as a function of the lines its stored iterator still yields and the
+flags it reads; `json.loads` a type-class parameter assumed pure; `try ... except Exception` + bare `raise` by that purity;
+line kinds `bytes` and `str`).
 """
 from __future__ import annotations
 
@@ -77,6 +84,7 @@ OPS = {
     'iter_next': (['List (List β)'], 'List β', 'PyRtC19.iterNext?', True),           # `next(it)`: StopIteration when exhausted
     'iter_rest': (['List (List β)'], 'List (List β)', 'PyRtC19.iterRest'),           # the iterator after that `next`
     'lstrip_ws': (['List β'], 'List β', 'PyRtC19.lstripWs'),                         # `b.lstrip()` (ASCII white space)
+    'lstrip_ws_t': (['List β'], 'List β', 'PyRtC19.lstripWsT'),                      # `s.lstrip()` on a str (Unicode white space)
     'rstrip_set': (['List β', 'List β'], 'List β', 'PyRtC19.rstripSet'),             # `b.rstrip(chars)`
     'json_loads': (['List β'], 'γ', 'PyRtC19.jsonLoads?', True),         # `json.loads(b)`: the instance [JsonLoads β γ]
     'json_loads_fails': (['List β'], 'Bool', 'PyRtC19.jsonLoadsFails'),  # does `json.loads(b)` raise (a pure function of b)
@@ -518,8 +526,9 @@ def _jsonl_prepass(f, cfg, mtree, notes):
     jc = cfg['jsonl']
     IT_ATTR, IT = jc['iter_attr'], jc['iter_param']
     flags = dict(jc.get('flags') or {})                  # attribute -> parameter name
-    if jc.get('line_kind') != 'bytes' or jc.get('loads') != 'json.loads':
-        raise Unsupported(f, 'only the kind `lines are bytes, parsed by json.loads` is known')
+    KIND = jc.get('line_kind')
+    if KIND not in ('bytes', 'str') or jc.get('loads') != 'json.loads':
+        raise Unsupported(f, 'only the kinds `lines are bytes / str, parsed by json.loads` are known')
     a = f.args
     if len(a.args) != 1 or a.vararg or a.kwarg or a.kwonlyargs or a.posonlyargs or a.defaults:
         raise Unsupported(f, 'a method of self alone is expected')
@@ -611,13 +620,13 @@ def _jsonl_prepass(f, cfg, mtree, notes):
             if isinstance(n.func, ast.Attribute) and not n.keywords:
                 if n.func.attr == 'lstrip' and not n.args:
                     notes.add('c19:lstrip')
-                    return _opcall('lstrip_ws', [n.func.value], n)
+                    return _opcall('lstrip_ws' if KIND == 'bytes' else 'lstrip_ws_t', [n.func.value], n)
                 if n.func.attr == 'rstrip' and len(n.args) == 1:
                     notes.add('c19:rstrip')
                     return _opcall('rstrip_set', [n.func.value, n.args[0]], n)
             return n
     _Lines().visit(f)
-    line_ops = (OP + 'iter_next', OP + 'lstrip_ws', OP + 'rstrip_set')
+    line_ops = (OP + 'iter_next', OP + 'lstrip_ws', OP + 'lstrip_ws_t', OP + 'rstrip_set')
     binds = {}
     for n in ast.walk(f):
         tg = []
@@ -658,7 +667,7 @@ def _jsonl_prepass(f, cfg, mtree, notes):
                     and isinstance(n.args[0], ast.Name) and n.args[0].id in line_vars and isinstance(n.args[1], ast.Name) \
                     and n.args[1].id in ('str', 'bytes'):
                 notes.add('c19:line-kind')
-                return ast.copy_location(ast.Constant(value=(n.args[1].id == 'bytes')), n)
+                return ast.copy_location(ast.Constant(value=(n.args[1].id == KIND)), n)
             return n
 
         def visit_IfExp(self, n):
@@ -744,16 +753,28 @@ def _jsonl_prepass(f, cfg, mtree, notes):
         if isinstance(n, ast.Raise) and n.exc is None:
             raise Unsupported(n, 'bare raise outside the handler of the json.loads try')
 
-    # ---- B3: bytes literals
+    # ---- B3: bytes literals; J9 (kind `str`): a str literal is the list of its code points (after J5 removed the dead branch,
+    # a literal of the OTHER kind is refused)
     class _Bytes(ast.NodeTransformer):
         def visit_Constant(self, n):
             if isinstance(n.value, bytes):
+                if KIND != 'bytes':
+                    raise Unsupported(n, 'a bytes literal where the lines are str')
                 notes.add('c19:bytes-literal')
                 return _opcall('bytes', [n], n)
+            if isinstance(n.value, str) and KIND == 'str':
+                notes.add('c19:text-literal')
+                return _opcall('text', [n], n)
+            return n
+
+        def visit_Expr(self, n):
+            if isinstance(n.value, ast.Constant) and isinstance(n.value.value, str):
+                return n                      # a docstring / string statement: no effect
+            self.generic_visit(n)
             return n
 
         def visit_Call(self, n):
-            if isinstance(n.func, ast.Name) and n.func.id == OP + 'bytes':
+            if isinstance(n.func, ast.Name) and n.func.id in (OP + 'bytes', OP + 'text'):
                 return n
             self.generic_visit(n)
             return n
@@ -929,6 +950,11 @@ def translate_op(ex, node, expected):
         if len(node.args) != 1 or not (isinstance(node.args[0], ast.Constant) and isinstance(node.args[0].value, bytes)):
             raise Unsupported(node, 'bytes literal expected')
         return '(PyRtC19.bytesLit [%s] : List β)' % ', '.join(str(b) for b in node.args[0].value), BYTES_T
+    if name == 'text':
+        # J9: a str literal (lines of kind str) is the list of its code points, items of β
+        if len(node.args) != 1 or not (isinstance(node.args[0], ast.Constant) and isinstance(node.args[0].value, str)):
+            raise Unsupported(node, 'str literal expected')
+        return '(PyRtC19.bytesLit [%s] : List β)' % ', '.join(str(ord(c)) for c in node.args[0].value), BYTES_T
     if name not in OPS or node.keywords:
         raise Unsupported(node, 'unknown operation %s' % node.func.id)
     ptypes, rtype, lean = OPS[name][:3]
@@ -1089,6 +1115,20 @@ partial def drainNext (fuel : Nat) (ig : Bool) (ls : List (List Nat)) (acc : Lis
 '''}
 _DRV_CASES['JSONLIterator_next'] = r'''
   | 4 :: lf :: ig :: n :: r => drainNext lf.toNat (ig != 0) (takeLines n.toNat r) []
+'''
+# case id 5: the same for the str kind (a line is the list of its code points; the same fake json.loads on code points)
+_DRV_PRE['JSONLIterator_next_text'] = r'''
+partial def drainNextT (fuel : Nat) (ig : Bool) (ls : List (List Nat)) (acc : List Int) : String :=
+  match Src.jsonutils.JSONLIterator_next_text (β := Nat) fuel ls ig with
+  | .ok (v, rest) => drainNextT fuel ig rest (acc ++ [v])
+  | .error PyExc.StopIteration => showInts acc ++ " S"
+  | .error PyExc.ValueError => showInts acc ++ " E ValueError"
+  | .error PyExc.KeyError => showInts acc ++ " E KeyError"
+  | .error PyExc.TypeError => showInts acc ++ " E TypeError"
+  | .error _ => showInts acc ++ " E other"
+'''
+_DRV_CASES['JSONLIterator_next_text'] = r'''
+  | 5 :: lf :: ig :: n :: r => drainNextT lf.toNat (ig != 0) (takeLines n.toNat r) []
 '''
 
 # the menu of `key` predicates of the indent cases: index -> (Python callable, the same predicate in the Lean driver)
@@ -1297,6 +1337,70 @@ def _cases_jsonl_next(mod, spec, rng, quick):
     return out
 
 
+def FAKE_LOADS_T(t):
+    """FAKE_LOADS on a str line (the same function of the code points)"""
+    if not isinstance(t, str):
+        raise AssertionError('json.loads was handed %r' % (t,))
+    if t[:1] == 'x':
+        raise ValueError('x')
+    if t[:1] == 'y':
+        raise KeyError('y')
+    if t[:1] == 'z':
+        raise TypeError('z')
+    return sum(ord(c) for c in t) * 31 + len(t)
+
+
+JSONL_PIECES_T = ['a', 'x', 'y', 'z', ' ', ' ', '\t', '\n', '\r', '\r\n', '\x0b', '\x0c', '\x1c', '\x1d', '\x1e', '\x1f', '\x85', '\xa0',
+                  '\u1680', '\u2000', '\u200a', '\u200b', '\u2028', '\u2029', '\u202f', '\u205f', '\u3000', '\ufeff', '{', '1', '\x00',
+                  '\U0001F600', '\x1b', '\u180e']
+
+
+def _cases_jsonl_next_text(mod, spec, rng, quick):
+    """the str kind: `next()` until it raises, on an object whose `_line_iter` yields the given str lines; half of the
+    line lists are what iterating an io.StringIO yields"""
+    import io
+    import types
+    out = []
+    real_json = mod.json
+    mod.json = types.SimpleNamespace(loads=FAKE_LOADS_T)
+    try:
+        for i in range(300 if quick else 4000):
+            k = rng.choice([0, 1, 2, 3, 5, 8])
+            mode = rng.choice(['lines', 'forward'])
+            if mode == 'lines':
+                lines = [''.join(rng.choice(JSONL_PIECES_T) for _ in range(rng.choice([0, 1, 2, 3, 5]))) for _ in range(k)]
+            else:
+                d = ''.join(rng.choice(JSONL_PIECES_T + ['\n', '\n']) for _ in range(k * 3))
+                lines = list(io.StringIO(d))
+            ignore = rng.random() < 0.5
+            if mode == 'lines':
+                it = mod.JSONLIterator.__new__(mod.JSONLIterator)
+                it._line_iter = iter(list(lines))
+                it.ignore_errors = ignore
+            else:
+                it = mod.JSONLIterator(io.StringIO(d), ignore_errors=ignore)
+            want = []
+            while True:
+                try:
+                    want.append(mod.JSONLIterator.next(it))
+                except StopIteration:
+                    want.append('S')
+                    break
+                except (ValueError, KeyError, TypeError) as e:
+                    want += ['E', type(e).__name__]
+                    break
+                except Exception:      # noqa: BLE001
+                    want += ['E', 'other']
+                    break
+            toks = [5, len(lines) + 1, int(ignore), len(lines)]
+            for l in lines:
+                toks += [len(l)] + [ord(c) for c in l]
+            out.append((toks, want, repr((mode, lines, ignore))))
+    finally:
+        mod.json = real_json
+    return out
+
+
 def _enc_bytes_lines(ls):
     out = [len(ls)]
     for l in ls:
@@ -1307,7 +1411,8 @@ def _enc_bytes_lines(ls):
 
 
 CASES = {'iter_splitlines': _cases_iter_splitlines, 'indent': _cases_indent, 'reverse_iter_lines': _cases_reverse_iter_lines,
-         'reverse_iter_lines_text': _cases_reverse_iter_lines_text, 'JSONLIterator_next': _cases_jsonl_next}
+         'reverse_iter_lines_text': _cases_reverse_iter_lines_text, 'JSONLIterator_next': _cases_jsonl_next,
+         'JSONLIterator_next_text': _cases_jsonl_next_text}
 
 
 def selftest(pids, quick=False, seed=0, verbose=True):
@@ -1372,7 +1477,7 @@ def selftest(pids, quick=False, seed=0, verbose=True):
             r['mismatches'] += 1
             mismatches.append((name, what, 'Python stream %s but Lean stream %s' % (' '.join(map(str, want)), got)))
     rj = reject_tests(verbose=False)       # side conditions of the front-end: every violating snippet is refused
-    report['_reject_tests'] = {'snippets': len(REJECT) + len(REJECT_REV) + len(REJECT_REV_TEXT) + len(REJECT_JSONL), 'not_refused': [w for w, _ in rj]}
+    report['_reject_tests'] = {'snippets': len(REJECT) + len(REJECT_REV) + len(REJECT_REV_TEXT) + len(REJECT_JSONL) + len(REJECT_JSONL_STR), 'not_refused': [w for w, _ in rj]}
     for what, why in rj:
         mismatches.append(('reject-test', what, str(why)))
     report['_mismatches'] = [{'function': n, 'case': c, 'what': b} for n, c, b in mismatches[:5]]
@@ -1566,6 +1671,13 @@ REJECT_JSONL = [
     ('json.dumps', lambda: _rj("            if not line:", "            json.dumps(1)\n            if not line:")),
 ]
 
+# the str kind of JSONLIterator.next (spec index 1)
+REJECT_JSONL_STR = [
+    ('str kind: bytes chars on a str line', lambda: _rj("'\\r\\n' if isinstance(line, str) else b'\\r\\n'", "b'\\r\\n' if isinstance(line, str) else '\\r\\n'")),
+    ('str kind: a bytes literal outside the dead branch', lambda: _rj("            if not line:", "            if line == b'':\n                continue\n            if not line:")),
+    ('str kind: lstrip with an argument', lambda: _rj(".lstrip()", ".lstrip(' ')")),
+]
+
 
 def reject_tests(verbose=True):
     """-> list of snippets that were NOT refused (must be empty); the unmodified snippet must be accepted"""
@@ -1604,7 +1716,13 @@ def reject_tests(verbose=True):
         specs = [copy.deepcopy({k: v for k, v in sp.items() if not k.startswith('_')}) for sp in srctie_specs.SPECS['C19']
                  if sp['module'] == 'boltons.jsonutils' and sp['qualname'] == 'JSONLIterator.next']
         _t, infos = py2lean.translate_source(src, specs, 'boltons.jsonutils', '<snippet>')
-        return infos
+        return infos           # [bytes kind, str kind]
+    for what, mk in REJECT_JSONL_STR:
+        infos = tr_jsonl(mk())
+        if len(infos) < 2 or not infos[1].get('error'):
+            bad.append((what, 'accepted'))
+        elif verbose:
+            print('refused (%s): %s' % (what, infos[1]['error'][:110]))
     ok = tr_jsonl(_RJ_JSONL)
     if any(i.get('error') for i in ok):
         bad.append(('the unmodified JSONLIterator.next snippet', [i.get('error') for i in ok]))
